@@ -260,8 +260,17 @@ def nested_identity(ctx, i):
     cur = inner
     path = [ints[0]]
     for d in range(depth):
-        cur = {"name": f"wrap{d}", "nodes": [{"k": "sub", "name": cur["name"], "prog": cur}], "bind": {}}
-        path.insert(0, cur["nodes"][0]["name"])
+        # the nested-graph node is named after its graph (plain as_node()), or mounted under ANOTHER name
+        # (as_node(name=...)), or renamed afterwards (with_name): the pause is identified by the NODE's name
+        sub_ns = {"k": "sub", "name": cur["name"], "prog": cur}
+        how = rng.choice(["graph-name", "mount-name", "with_name"])
+        if how == "mount-name":
+            sub_ns["name"] = f"mount{d}"
+        elif how == "with_name":
+            sub_ns["rename_name"] = f"site{d}"
+        ctx.obs["nested_mount:" + how] += 1
+        cur = {"name": f"wrap{d}", "nodes": [sub_ns], "bind": {}}
+        path.insert(0, ref.node_name(sub_ns))
     top = cur
     # an ordinary sibling of the outermost wrapper, runnable in the very step in which the nested graph pauses:
     # its finished output is part of the values computed before the pause
